@@ -124,8 +124,12 @@ impl Sim {
                     self.stats.bump("ddl_autocommit");
                 }
                 let res = self.compare(i, &exp, &out);
-                if exp == Expect::Any && !out.is_err() && !matches!(stmt, Stmt::Raw(_)) {
+                if exp == Expect::Any && !out.is_err() && !(matches!(stmt, Stmt::Raw(_)) && matches!(out, Out::Rows(_))) {
+                    // the model could not predict it and the engine changed something (or may have)
                     self.halted = true;
+                }
+                if matches!(stmt, Stmt::Raw(_)) {
+                    self.stats.bump(if out.is_err() { "hostile_statements_rejected" } else { "hostile_statements_accepted" });
                 }
                 if !out.is_err() && res.is_ok() {
                     self.model.run(tx, stmt, true);
@@ -250,8 +254,12 @@ impl Sim {
                     self.stats.bump("session_writes");
                 }
                 let res = self.compare(i, &exp, &out);
-                if exp == Expect::Any && !out.is_err() && !matches!(stmt, Stmt::Raw(_)) {
+                if exp == Expect::Any && !out.is_err() && !(matches!(stmt, Stmt::Raw(_)) && matches!(out, Out::Rows(_))) {
+                    // the model could not predict it and the engine changed something (or may have)
                     self.halted = true;
+                }
+                if matches!(stmt, Stmt::Raw(_)) {
+                    self.stats.bump(if out.is_err() { "hostile_statements_rejected" } else { "hostile_statements_accepted" });
                 }
                 if !out.is_err() && res.is_ok() {
                     self.model.run(tx, stmt, true);
